@@ -249,21 +249,24 @@ static void sprintf_error (int which) {
 /**
  * Output number num to outbuf as decimal.
  */
-static void numadd (outbuffer_t * outbuf, int64_t num) {
-  int64_t i;
+static void numadd (outbuffer_t * outbuf, int64_t snum) {
+  uint64_t i, num; /* magnitude: -INT64_MIN is not representable in int64_t */
   size_t num_l; /* length of num as a string */
   int nve;      /* true if num negative */
   size_t space;
   size_t chop;
   char *p;
 
-  if (num < 0)
+  if (snum < 0)
     {
-      num = llabs (num);
+      num = 0 - (uint64_t) snum;
       nve = 1;
     }
   else
-    nve = 0;
+    {
+      num = (uint64_t) snum;
+      nve = 0;
+    }
   for (i = num / 10, num_l = nve + 1; i; i /= 10, num_l++);
   if ((space = outbuf_extend (outbuf, num_l)))
     {
@@ -280,7 +283,7 @@ static void numadd (outbuffer_t * outbuf, int64_t num) {
         }
       while (space--)
         {
-          p[space] = (num % 10) + '0';
+          p[space] = (char) ((num % 10) + '0');
           num /= 10;
         }
     }
